@@ -182,6 +182,46 @@ class ReprFloat(float):
         return float.__repr__(self)
 
 
+class FormatStr(str):
+    """A str subclass (an enum-with-str-mixin style value) whose str() / format() / repr() are NOT its text: as an attribute value
+    or child it is the text it holds."""
+
+    def __str__(self):
+        return "FormatStr.MEMBER"
+
+    def __format__(self, spec):
+        return "FormatStr.MEMBER"
+
+    def __repr__(self):
+        return "<FormatStr.MEMBER>"
+
+
+class MoneyFloat(float):
+    """A number (float subclass) that can also draw itself: as a child it is a number - its str() text."""
+
+    def _repr_html_(self):
+        return "<b>&euro; %s</b>" % float.__repr__(self)
+
+
+class CountInt(int):
+    """A number (int subclass) that is also tagifiable: as a child it is a number."""
+
+    def tagify(self):
+        return ht.TagList("count: ", int.__repr__(self))
+
+
+class MappingComponent(__import__("collections").UserDict):
+    """A tagifiable component that is also a (non-dict) Mapping: passed to an element it is a CHILD, not an attribute dict."""
+
+    def tagify(self):
+        return ht.TagList(*["%s=%s" % kv for kv in self.data.items()])
+
+    def __eq__(self, other):
+        return self is other
+
+    __hash__ = None
+
+
 class BadRepr:
     """Not a child value - and it cannot even be described: repr() and str() of it raise (a proxy to a closed resource, a
     half-initialised object)."""
@@ -331,7 +371,7 @@ class FlakyTF(TF):
         return super().tagify()
 
 
-HARNESS_DOUBLES = (ResourceMeta, ReprObj, TF, TFObj, LazyMeta, SeqTF, DynObj)  # (StoredTF etc. are TF subclasses)
+HARNESS_DOUBLES = (ResourceMeta, MappingComponent, ReprObj, TF, TFObj, LazyMeta, SeqTF, DynObj)  # (StoredTF etc. are TF subclasses)
 
 _SHARED = {}
 
@@ -361,6 +401,8 @@ def _noop_hook(value):
 def build_attr_value(v):
     t = v["t"]
     if t == "str":
+        if v.get("sub") == "fmt":
+            return FormatStr(v["s"])
         return StrSub(v["s"]) if v.get("sub") else v["s"]
     if t == "html":
         return HTMLSub(v["s"]) if v.get("sub") else ht.HTML(v["s"])
@@ -416,7 +458,12 @@ def _build(r):
     if k == "text":
         return StrSub(r["s"]) if r.get("sub") else r["s"]
     if k == "num":
+        if r.get("proto"):
+            x_ = _num(r["v"])
+            return MoneyFloat(x_) if isinstance(x_, float) else CountInt(x_)
         return _num(r["v"])
+    if k == "mapcomp":
+        return MappingComponent({"title": "not an attribute", "id": "still a child"})
     if k == "html":
         return HTMLSub(r["s"]) if r.get("sub") else ht.HTML(r["s"])
     if k == "obj":
@@ -513,6 +560,9 @@ def build_dep(r):
         h = r["head"]
         if isinstance(h, str):
             kw["head"] = h
+        elif isinstance(h, dict):
+            # head given as ONE object: {"as": "html" | "tag" | "taglist", ...}
+            kw["head"] = ht.HTML(h["s"]) if h["as"] == "html" else build(h["node"]) if h["as"] == "tag" else ht.TagList(*[build(c) for c in h["c"]])
         else:
             kw["head"] = [build(c) for c in h]
     ver = r["version"]
